@@ -238,12 +238,23 @@ _ANALYSES = [0]
 SECTION_HEAD = 'earlier_part = 1\nprint(earlier_part)\n\n'
 
 
+RESPELLED = {'a': '_a', 'b': '__b2'}        # (a leading underscore is only a convention: '_' itself is the one name TIFA exempts)
+
+
 def tifa_issues(code):
     from pedal.core.commands import clear_report, contextualize_report
     from pedal.tifa import tifa_analysis
+    import re as _re, zlib as _zlib
     clear_report()
     _ANALYSES[0] += 1
     shift = 0
+    back = {}
+    if _zlib.crc32(code.encode()) % 6 == 0 and not _re.search(r'\b(_a|__b2)\b', code):
+        # the same program with its variables spelled with leading underscores: same diagnoses, under those names
+        code = _re.sub(r'\b(a|b)\b', lambda m: RESPELLED[m.group(1)], code)
+        back = {v: k for k, v in RESPELLED.items()}
+        if _CTX[0] is not None:
+            _CTX[0].count('programs_analysed_with_underscore_names')
     if _ANALYSES[0] % 9 == 4 and '##### Part' not in code and '\r' not in code:
         # the program is the part after the first marker of a sectioned file (here one the student did not call answer.py): the
         # issues are reported on the lines of the whole file
@@ -251,6 +262,8 @@ def tifa_issues(code):
         from pedal.source.sections import separate_into_sections, next_section
         contextualize_report(SECTION_HEAD + '##### Part 1\n' + code, filename='student_work.py' if _ANALYSES[0] % 2 else 'answer.py')
         separate_into_sections(independent=True)
+        if _ANALYSES[0] % 4 < 2:
+            tifa_analysis()         # (the part before the marker is analysed first, as a grader walking the sections does)
         next_section()
         if MAIN_REPORT.submission.main_code == '\n' + code:
             shift = SECTION_HEAD.count('\n') + 1
@@ -273,7 +286,7 @@ def tifa_issues(code):
             except Exception:
                 name = None
             line = getattr(fb.location, 'line', None)
-            out.setdefault(label, []).append((name, line - shift if isinstance(line, int) else line))
+            out.setdefault(label, []).append((back.get(name, name), line - shift if isinstance(line, int) else line))
     return t, out
 
 
